@@ -376,8 +376,29 @@ def run(rep, info, model, tier, seed):
 def replay(body):
     from . import c06
     if (body["scenario"] or {}).get("kind"):
-        print("in-process family: re-run check.py C03 quick")
-        return 2
+        # the argument-type family runs in this process on objects that have no literal form (memoryview, object(), ...): the
+        # whole (small) family is run again and the stored case looked up among its complaints
+        class R(object):
+            def __init__(self):
+                self.v, self.families, self.exhaustive = [], [], {}
+
+            def add_case(self, *a, **k):
+                pass
+
+            def count(self, *a, **k):
+                pass
+
+            def violation(self, what, scenario=None, **k):
+                self.v.append((what, scenario))
+
+            def broken(self, what):
+                self.v.append((what, None))
+        r = R()
+        type_family(r)
+        want = body["scenario"]
+        hit = [w for w, sc in r.v if sc == want]
+        print("REPLAY:", ("VIOLATION reproduced: %s" % hit[0]) if hit else "property holds on this input")
+        return 1 if hit else 0
 
     def fix(sc):
         if "_acts" in sc:
